@@ -1,4 +1,4 @@
 SPECIFICATION Spec
-CONSTANTS Readers = {1} Writers = {2} Rounds = 1 Grace = 2 MaxT = 3 AllowShutdown = FALSE AllowParentCancel = FALSE GraceFromAdmission = FALSE ErrButAdmitted = FALSE DeleteOnEveryRelease = FALSE AutoReleaseOnCtxEnd = FALSE CancelAfterDone = TRUE
+CONSTANTS Readers = {1} Writers = {2} Rounds = 1 Grace = 2 MaxT = 3 AllowShutdown = FALSE AllowParentCancel = FALSE GraceFromAdmission = FALSE ErrButAdmitted = FALSE DeleteOnEveryRelease = FALSE AutoReleaseOnCtxEnd = FALSE CancelAfterDone = TRUE NoCtxOnSend = FALSE
 INVARIANTS Contract
 CHECK_DEADLOCK FALSE
